@@ -18,6 +18,19 @@ import (
 	"github.com/llir/llvm/ir/metadata"
 )
 
+// uniqueIDs: the distinct #N tokens of a module text
+func uniqueIDs(src string) []string {
+	seen := map[string]bool{}
+	var out []string
+	for _, t := range regexp.MustCompile(`#[0-9]+`).FindAllString(src, -1) {
+		if !seen[t] {
+			seen[t] = true
+			out = append(out, t)
+		}
+	}
+	return out
+}
+
 func permutations(n int) [][]int {
 	if n == 0 {
 		return [][]int{{}}
@@ -107,6 +120,43 @@ func TestVerifC20Asm(t *testing.T) {
 				break
 			}
 		}
+	}
+	// attribute groups that are used but not defined (materialised as empty groups) are listed in ascending order of
+	// their IDs too, whatever the order of their uses, and between the defined ones
+	for _, src := range []string{
+		"declare void @f() #3 #1\n",
+		"declare void @f() #9 #2\ndeclare void @g() #5 #0\nattributes #4 = { nounwind }\nattributes #7 = { cold }\n",
+		"define void @f() #6 {\n  call void @g() #8\n  call void @g() #1\n  ret void\n}\ndeclare void @g() #3\nattributes #3 = { cold }\n",
+	} {
+		cases++
+		func() {
+			defer func() {
+				if e := recover(); e != nil {
+					fail("undefined attribute groups: panic %v on\n%s", e, src)
+				}
+			}()
+			m, err := ParseString("t.ll", src)
+			if err != nil {
+				fail("undefined attribute groups: %v on\n%s", err, src)
+				return
+			}
+			out := m.String()
+			re := regexp.MustCompile(`(?m)^attributes #([0-9]+) = `)
+			prev := -1
+			n := 0
+			for _, mm := range re.FindAllStringSubmatch(out, -1) {
+				id, _ := strconv.Atoi(mm[1])
+				n++
+				if id <= prev {
+					fail("attribute groups materialised for undefined IDs: not printed in ascending order of their IDs (%d after %d):\n%s", id, prev, out)
+					break
+				}
+				prev = id
+			}
+			if want := len(regexp.MustCompile(`#[0-9]+`).FindAllString(strings.Join(uniqueIDs(src), " "), -1)); n != want {
+				fail("attribute groups: %d groups listed, %d distinct IDs written in\n%s\nprinted:\n%s", n, want, src, out)
+			}
+		}()
 	}
 	// the order of the printed definitions does not depend on whether the module was printed before
 	{
